@@ -367,6 +367,20 @@ def scan_builders(ctx, s, puts):
         recv, _ = s.receiver_field(fn, info["args"][0])
         tbl = ".".join(recv) if recv else "?"
         builders = [c for c in an.calls() if (c[1]["callee"] or "").rsplit("::", 1)[-1].startswith("key_")]
+        # a builder whose result is only an argument of another builder (a shared (time, id) suffix handed on) is part of it
+        outer = [c for c in builders if not any(c2 is not c and any(contains_value(a, lambda y, v=c[1]["value"]: y == v)
+                                                                   for a in list(c2[1]["args"]) + [p_ for p_ in c2[1]["pre"] if p_ is not None])
+                                                for c2 in builders)]
+        if outer and len(outer) < len(builders):
+            inner_ = [c for c in builders if c not in outer]
+            # the nested calls' arguments count as the outer call's
+            for c in outer:
+                extra_args = []
+                for c2 in inner_:
+                    if any(contains_value(a, lambda y, v=c2[1]["value"]: y == v) for a in list(c[1]["args"]) + [p_ for p_ in c[1]["pre"] if p_ is not None]):
+                        extra_args += list(c2[1]["args"])
+                c[1]["args"] = list(c[1]["args"]) + extra_args
+            builders = outer
         names = sorted({c[1]["callee"].rsplit("::", 1)[-1] for c in builders})
         params = {fn.local_name(i): ("param", i) for i in range(1, fn.argc + 1)}
         # the two (time, id) pairs the bounds are built from, in source order, and the builder used
@@ -391,7 +405,7 @@ def scan_builders(ctx, s, puts):
         ok = tbl == table and names == [want] and pairs is not None
         order_ok = None
         if pairs is not None:
-            has = lambda args_, pn: any(a == params.get(pn) for a in args_)
+            has = lambda args_, pn: any(a == params.get(pn) or contains_value(a, lambda y: y == params.get(pn)) for a in args_)
             order_ok = has(pairs[0], "until") and has(pairs[1], "since") and not has(pairs[0], "since") and not has(pairs[1], "until")
             # id bounds: start all-zero, end all-0xff (a named constant whose value was not extracted: not decided)
             def idb(args_, byte):
@@ -874,9 +888,40 @@ def naddr_marker_monotone(ctx, s):
                         if ex and nw and len(d) == 2 and f[1][0] >= 1:
                             good.append(node)
         ok = bool(good) and s.must_pass(fn, b, good)
-        s.add("S-MAXUPD", fn, "marker-time-only-grows", "deleted_naddrs.put", info["sp"], PROVED if ok else VIOLATION,
-              "the put is reached only when no time is stored for the key or the stored time is smaller than the new one" if ok else
-              "the stored deletion time can be overwritten by an older one (newest-first arrival lowers it)", b)
+        verdict = PROVED if ok else VIOLATION
+        if not ok and not gets:
+            # the comparison with the stored time moved out to the callers: every caller must look the stored time up (in
+            # the same transaction) and reach the call only when there is none or it is smaller
+            verdict = PROVED
+            callers = [c for c in s.callers("pocket_db::Lmdb::mark_naddr_deleted")]
+            if not callers:
+                verdict = UNDECIDED
+            for cn in callers:
+                cf = ctx.fn(cn)
+                ca = ctx.E.an(cf)
+                for cb, ci in s.calls(cf, names={"pocket_db::Lmdb::mark_naddr_deleted"}):
+                    looks = [(lb, li) for lb, li in s.calls(cf, names={"pocket_db::Lmdb::when_is_naddr_deleted"})]
+                    if not looks:
+                        verdict = VIOLATION
+                        continue
+                    cgood = []
+                    for lb, li in looks:
+                        G = li["value"]
+                        for node in ca.edge_cond:
+                            for f in s.edge_facts(cf, node):
+                                if f[0] == "variant" and f[2] == 0 and isinstance(f[1], tuple) and f[1][0] == "proj" and contains_value(f[1], lambda x: x == G):
+                                    cgood.append(node)
+                                if f[0] == "le":
+                                    d = dict(f[1][1])
+                                    ex = [a for a in d if contains_value(a, lambda x: x == G) and d[a] == 1]
+                                    if ex and len(d) == 2 and f[1][0] >= 1 and any(v == -1 for v in d.values()):
+                                        cgood.append(node)
+                    if not (cgood and s.must_pass(cf, cb, cgood)):
+                        verdict = UNDECIDED if verdict == PROVED else verdict
+        s.add("S-MAXUPD", fn, "marker-time-only-grows", "deleted_naddrs.put", info["sp"], verdict,
+              "the put is reached only when no time is stored for the key or the stored time is smaller than the new one" if verdict == PROVED else
+              ("the stored deletion time can be overwritten by an older one (newest-first arrival lowers it)" if verdict == VIOLATION else
+               "the comparison with the stored time is made by the callers in a form not recognised: not decided"), b)
 
 
 LOOKUPS = (("pocket_db::Lmdb::get_offset_by_id", "i_index"), ("pocket_db::Lmdb::is_deleted", "deleted_ids"),
